@@ -358,6 +358,15 @@ def selected(index, n, p):
                 S.And(hi < p, p <= lo, S.mod(lo - p, -st) == 0))
 
 
+def piece_count(piece, n):
+    """what new_blockdim relies on: a piece is the full slice, or its three fields are integers and the length
+    formula ceil((stop - start) / step) is the number of positions it selects from a block of length n"""
+    a, b, c = S.parts(piece)
+    colon = S.And(S.is_none(a), S.is_none(b), S.is_none(c))
+    ints = S.And(S.Not(S.is_none(a)), S.Not(S.is_none(b)), S.Not(S.is_none(c)), S.val(c, 1) != 0)
+    return S.Or(colon, S.And(ints, S.lazy_implies(ints, lambda: S.ceildiv(S.val(b) - S.val(a), S.val(c, 1)) == S.nsel(piece, n))))
+
+
 def same_direction(index, piece):
     c = S.parts(index)[2]
     pc = S.parts(piece)[2]
@@ -391,6 +400,8 @@ class slice_1d__slice:
                                   S.And(S.mhas(result, j),
                                         S.lazy_implies(S.mhas(result, j),
                                                        lambda: selected(S.mget(result, j), S.at(lengths, j), q)))))),
+            "piece-count": S.lazy_implies(S.And(inr, S.mhas(result, j)),
+                                          lambda: piece_count(S.mget(result, j), S.at(lengths, j))),
             "direction": S.lazy_implies(
                 S.And(inr, S.mhas(result, j)),
                 lambda: S.And(S.step_ok(S.mget(result, j)),
@@ -446,6 +457,8 @@ def _inv_pos(v, v0):
                                          S.Or(v.start < v.step, v.M == 0))),
         "exact": S.Implies(S.And(v0.istart <= v.j, v.j < i), _exact(v, v.d)),
         "dir": S.Implies(S.And(v0.istart <= v.j, v.j < i), _piece_dir(v, v.d)),
+        "count": S.Implies(S.And(v0.istart <= v.j, v.j < i, S.mhas(v.d, v.j)), piece_count(S.mget(v.d, v.j), S.at(L, v.j))),
+        "ordered-until-first-hit": S.Implies(S.And(live, v.M == 0), v.stop >= v.start),
         "keys": _keys_between(v.d, v0.istart, i),
     }
 
@@ -455,12 +468,29 @@ def _upd_pos(h, e):
     return {"M": S.If(take, h.M - S.div(h.start - e.length, h.step), h.M)}
 
 
+def _count_hints(piece, n, c):
+    """the length formula against the characterised count: cnt == k by product monotonicity on (cnt - k)"""
+    a, b, _ = S.parts(piece)
+    k = S.ceildiv(S.val(b) - S.val(a), c)
+    cnt = S.nsel(piece, n)
+    t = cnt - k
+    return {
+        "count-mono-up": S.Implies(S.And(t >= 1, c > 0), t * c >= c),
+        "count-mono-down": S.Implies(S.And(t <= -1, c > 0), t * c <= -c),
+        "count-mono-up-neg": S.Implies(S.And(t >= 1, c < 0), t * c <= c),
+        "count-mono-down-neg": S.Implies(S.And(t <= -1, c < 0), t * c >= -c),
+    }
+
+
 def _hints_pos(h, e):
     y = h.q - h.start
-    return {
+    out = {
         "mod-shift": ("lemma", "mod_shift", y, h.M, h.step),
         "mod-small": ("lemma", "mod_small", y, h.step),
     }
+    piece = S.mkslice(h.start, S.min_(h.stop, e.length), h.step)
+    out.update(_count_hints(piece, e.length, h.step))
+    return out
 
 
 slice_1d__slice.merge = False
@@ -484,6 +514,7 @@ def _inv_neg(v, v0):
         "below": S.Implies(v.rstart > hi, v.rstart < Pnext),
         "exact": S.Implies(S.And(i < v.j, v.j <= v0.istart), _exact(v, v.d)),
         "dir": S.Implies(S.And(i < v.j, v.j <= v0.istart), _piece_dir(v, v.d)),
+        "count": S.Implies(S.And(i < v.j, v.j <= v0.istart, S.mhas(v.d, v.j)), piece_count(S.mget(v.d, v.j), S.at(L, v.j))),
         "keys": _keys_between(v.d, i + 1, v0.istart + 1),
     }
 
@@ -495,10 +526,13 @@ def _upd_neg(h, e):
 
 def _hints_neg(h, e):
     y = (h.rstart - S.prefix(h.lengths, h.i)) - h.q
-    return {
+    out = {
         "mod-shift": ("lemma", "mod_shift", y, h.M, -h.step),
         "mod-small": ("lemma", "mod_small", y, -h.step),
     }
+    piece = S.mkslice(h.rstart - e.chunk_stop, S.max_(e.chunk_start - e.chunk_stop - 1, h.stop - e.chunk_stop), h.step)
+    out.update(_count_hints(piece, e.chunk_stop - e.chunk_start, h.step))
+    return out
 
 
 def _inv_final(v, v0):
@@ -510,6 +544,7 @@ def _inv_final(v, v0):
         "same-keys": z3.ForAll([k], z3.Select(v.d.has, k) == z3.Select(v0.d.has, k), patterns=[z3.Select(v.d.has, k)]),
         "exact": S.Implies(inr, _exact(v, v.d)),
         "dir": S.Implies(inr, _piece_dir(v, v.d)),
+        "count": S.Implies(S.And(inr, S.mhas(v.d, v.j)), piece_count(S.mget(v.d, v.j), S.at(L, v.j))),
     }
 
 
